@@ -59,6 +59,8 @@ structure Decl where
   name : String
   isList : Bool
   kind : String
+  /-- how the class comes by a List trait and its default (synclib.FLAVOURS); only the default matters here -/
+  flavour : String := ""
 
 /-- `kx:ky:kl:km` (traits x, y and List traits l, m) or `name=kind:name=*kind:…`
 (`*` marks a `List` trait; names are opaque). -/
@@ -67,10 +69,15 @@ def parseObj (s : String) : List Decl :=
   if parts.any (fun t => t.contains '=') then
     parts.filterMap (fun t =>
       match t.splitOn "=" with
-      | [n, k] => if k.startsWith "*" then some ⟨n, true, (k.drop 1).toString⟩ else some ⟨n, false, k⟩
+      | [n, k] =>
+        if k.startsWith "*" then
+          match (k.drop 1).toString.splitOn "+" with
+          | [kk, fl] => some ⟨n, true, kk, fl⟩
+          | _ => some ⟨n, true, (k.drop 1).toString, ""⟩
+        else some ⟨n, false, k, ""⟩
       | _ => none)
   else
-    (["x", "y", "l", "m"].zip parts).map (fun (n, k) => ⟨n, n = "l" || n = "m", k⟩)
+    (["x", "y", "l", "m"].zip parts).map (fun (n, k) => ⟨n, n = "l" || n = "m", k, ""⟩)
 
 def declOf (specs : List (List Decl)) (p : Pair) : Option Decl :=
   match specs[p.1]? with
@@ -88,9 +95,18 @@ def mkEnv (specs : List (List Decl)) : Sync.Env DV :=
     eq := fun a b => a == b,
     sort := pySort }
 
+/-- The default of a List trait: `[1,2]` when a `_name_default` method (dm, ds) or a subclass
+override by value (so) supplies it and the items are valid for the kind, `[]` otherwise. -/
+def defaultList (d : Decl) : List DV :=
+  if (d.flavour = "dm" || d.flavour = "ds" || d.flavour = "so") &&
+     (d.kind = "int" || d.kind = "cint" || d.kind = "rng" || d.kind = "mod7") then [.int 1, .int 2] else []
+
 def initWorld (specs : List (List Decl)) : World DV :=
-  { val := fun p => if isListOf specs p then .l []
-                    else if kindOf specs p = "str" then .s (.str 0) else .s (.int 0),
+  { val := fun p =>
+      match declOf specs p with
+      | some d => if d.isList then .l (defaultList d)
+                  else if d.kind = "str" then .s (.str 0) else .s (.int 0)
+      | none => .s (.int 0),
     nChg := fun _ => 0, nItems := fun _ => 0, edges := [], locked := [], hooked := [] }
 
 def parseSlice (a b c : String) : Option Slice := do
